@@ -68,7 +68,12 @@ def execute(case, ctx):
                     if sum(1 for v in vals if v == e[best]) > 1:
                         ctx.fired("probe.exact_tie_between_arms")
                     if p != best:
-                        ctx.violate("predict-is-not-first-argmax", step, {"row": i, "predict": p, "expectations": e})
+                        sig = {}
+                        if np_class(cfg) == "TreeBandit" and cfg["lp"][0] == "ThompsonSampling" and cfg["n_jobs"] != 1:
+                            # workers draw the leaf samples from the bandit's shared generator (known finding of C05):
+                            # under thread interleavings predict and predict_expectations see other draws per row
+                            sig["kf2"] = "treebandit-shared-rng-schedule-dependent"
+                        ctx.violate("predict-is-not-first-argmax", step, {"row": i, "predict": p, "expectations": e}, **sig)
                         return
         r = P.apply(op, sched=op.get("sched"))
         if r[0] == "ok" and kind in ("fit", "partial_fit"):
